@@ -360,6 +360,89 @@ def check_copy_loop(ck, fn):
     ck.ok("COPY-ELEMENTS", fn.qname + ("(copy-ctor)" if fn.kind == "ctor" else "(copy-assign)"), "push_back(rb[i]) for i in [0, rb.size())")
 
 
+def check_cursor_reset(ck, fn):
+    """a function that installs a new mask_ (capacity change) must also re-establish both cursors:
+    cursors left over from the old capacity may lie outside the new block"""
+    w = field_writes(fn, None)
+    if ("this", "mask_") not in w or fn.kind == "ctor":
+        return
+    src = w[("this", "mask_")][-1]
+    ff = match.field_of(src)
+    from_obj = ref_of(ff[0]) if ff and ff[1] == "mask_" else None
+    missing = []
+    for c in ("begin_", "end_"):
+        r = w.get(("this", c))
+        okc = False
+        if r:
+            v = r[-1]
+            f2 = match.field_of(v)
+            if const_int(v) == 0:
+                okc = True
+            elif from_obj is not None and f2 and f2[1] == c and ref_of(f2[0]) == from_obj:
+                okc = True
+        if not okc:
+            missing.append(c)
+    if missing:
+        ck.violation("CURSOR-RESET", fn.qname, "mask-without:" + ",".join(missing),
+                     "%s installs a new mask_/capacity but keeps the old %s: a cursor beyond the new capacity indexes outside the block"
+                     % (fn.name, " and ".join(missing)), fn.loc)
+    else:
+        ck.ok("CURSOR-RESET", "%s(%s)" % (fn.qname, ",".join(p["ty"] for p in fn.params)), "new mask_ comes with begin_/end_ re-established")
+
+
+def check_sv_coupled(ck, fn):
+    """size_ and array_ describe one block: every write to one is accompanied on the same paths by a write of the other,
+    with agreeing values (create_array(X) <-> X, nullptr <-> 0, both from the same source object)"""
+    if fn.kind == "ctor":
+        return
+    g = cfgm.CFG(fn)
+    writes = {"size_": [], "array_": []}
+    for x in ir.walk(fn.body):
+        b = match.binop(x, ("=",))
+        if b:
+            f = match.field_of(b[1])
+            if f and f[1] in writes:
+                base = strip_casts(f[0])
+                who = "this" if base["k"] == "This" else ref_of(base)
+                rhs = b[2]
+                writes[f[1]].append((x, who, rhs))
+        c = match.call_named(x, ("swap",))
+        if c and len(kids(c)) == 2:
+            fa, fb = match.field_of(kids(c)[0]), match.field_of(kids(c)[1])
+            if fa and fb and fa[1] == fb[1] and fa[1] in writes:
+                writes[fa[1]].append((x, "swap", None))
+    if not writes["size_"] and not writes["array_"]:
+        return
+    def pos(x):
+        return g.pos(x) or g.pos_deep(x)
+    okall = True
+    for a, b in (("size_", "array_"), ("array_", "size_")):
+        for (x, who, rhs) in writes[a]:
+            mates = [(y, w2, r2) for (y, w2, r2) in writes[b] if w2 == who and pos(y) and pos(x) and
+                     (pos(y) == pos(x) or g.dominates(pos(y), pos(x)) or g.postdominates(pos(y), pos(x)))]
+            if not mates:
+                ck.violation("SV-COUPLED", fn.qname, "%s-without-%s" % (a, b),
+                             "%s is changed on a path that does not change %s: the stored element count and the live block disagree "
+                             "(elements stay constructed although no longer stored, or vice versa)" % (a, b), fn.nloc(x))
+                okall = False
+                continue
+            if a == "size_" and who != "swap":
+                y, _, r2 = mates[-1]
+                ca = match.call_named(r2, ("create_array",))
+                if ca is not None:
+                    if not match.same_expr(kids(ca)[-1], rhs):
+                        ck.violation("SV-COUPLED", fn.qname, "size-vs-create", "size_ = %s but the block is created with %s elements"
+                                     % (dtable.describe(rhs), dtable.describe(kids(ca)[-1])), fn.nloc(x))
+                        okall = False
+                elif strip_casts(r2)["k"] == "NullPtr" or const_int(r2) == 0:
+                    if const_int(rhs) != 0:
+                        ck.violation("SV-COUPLED", fn.qname, "null-vs-size", "array_ = nullptr but size_ = %s" % dtable.describe(rhs), fn.nloc(x))
+                        okall = False
+    if okall:
+        ck.ok("SV-COUPLED", "%s %s/%d" % (fn.qname, fn.kind, len(fn.params)), "%d size_ / %d array_ writes paired on all paths with agreeing values"
+              % (len(writes["size_"]), len(writes["array_"])))
+
+
 # ------------------------------------------------------------------ SimpleVector
 def sv_mode(fn):
     m = fn.rtargs[1] if len(fn.rtargs) > 1 else ""
@@ -565,6 +648,7 @@ def run(ck):
                     check_moved(ck, fn)
                 if fn.d.get("copy_ctor") or fn.d.get("copy_assign"):
                     check_copy_loop(ck, fn)
+                check_cursor_reset(ck, fn)
             if nd:
                 check_sv_modes(ck, tu)
                 for fn in tu.find(record=SV):
@@ -575,6 +659,7 @@ def run(ck):
                         check_sv_owner(ck, fn)
                     if fn.name == "resize":
                         check_sv_resize(ck, fn)
+                    check_sv_coupled(ck, fn)
                     if fn.d.get("move_ctor") or fn.d.get("move_assign"):
                         check_sv_move(ck, fn)
     n = len(types) * (1 if ck.tier == "quick" else 2)
@@ -586,3 +671,5 @@ def run(ck):
     ck.floor("SV-MODE-TABLE", 3 * len(types))
     ck.floor("SV-OWNER", 5 * len(types))
     ck.floor("SV-RESIZE-ORDER", 1 * len(types))
+    ck.floor("SV-COUPLED", 4 * len(types))
+    ck.floor("CURSOR-RESET", 2 * n)
